@@ -211,6 +211,11 @@ def run_case(case, ctx):
         for r in prev['rows']:
             e = case['expiry_scalar'] if case.get('expiry_scalar') is not None else r['exp']
             prev_by_key[tuple(r[c] for c in prev['on'])] = (r['v'], e)
+    COL = case.get('col') or 'data'
+    if case.get('col'):
+        kw['col'] = case['col']                  # the output column under another name
+    if case.get('include_inputs'):
+        kw['include_inputs'] = True              # the inputs listed next to the output: extra columns, same rows, same values
     if case.get('output_is_input') is not None:
         kw['output_is_input'] = case['output_is_input']      # whether f is shown its own previous output: no bearing on which rows keep their value
     p = perdictable(f, **kw)
@@ -249,9 +254,10 @@ def run_case(case, ctx):
         ctx.cls('zero_common_keys')
         return
     kc = [c for c in sorted(on) if c in mrows[0]]
-    ok = st == 'ok' and type(res) is dictable and sorted(res.keys()) == sorted(kc + ['data']) and len(res) == len(exp_rows)
+    ok = st == 'ok' and type(res) is dictable and len(res) == len(exp_rows) and \
+        (sorted(res.keys()) == sorted(kc + [COL]) if not case.get('include_inputs') else set(kc + [COL]) <= set(res.keys()))
     if ok:
-        got = [(tuple(r[c] for c in kc), r['data']) for r in res]
+        got = [(tuple(r[c] for c in kc), r[COL]) for r in res]
         ok = all(same(a, b) for a, b in zip(got, exp_rows))
     ctx.check('perdictable_rows_model', ok, lambda: 'perdictable(f, on=%r)(%r, prev=%r, expiry_scalar=%r) = %s %r\nmodel %r' % (on, inputs_t, prev, case.get('expiry_scalar'), st, [dict(r) for r in res] if st == 'ok' and isinstance(res, dict) else res, exp_rows))
     if st == 'ok' and type(res) is dictable and len(res) > 1:
@@ -354,6 +360,11 @@ def gen_case(rng):
         case['output_is_input'] = rng.choice([False, 'something_else', []])
     if not tables and 'data' not in case['params'] and rng.random() < 0.5:
         case['scalar_cache'] = [rng.choice([99, None, 'old']), rng.choice(['past', 'past', 'future', 'none'])]
+    if tables and rng.random() < 0.2 and 'data' not in case['params']:
+        case['include_inputs'] = rng.random() < 0.6
+        if rng.random() < 0.6:
+            case['col'] = rng.choice(['out', 'value'])
+        return case          # (no previous data in these cases: it would have to be handed over under the new name)
     if tables and rng.random() < 0.6:
         full = [s for s in inputs.values() if isinstance(s, dict) and 'rows' in s and s['on'] == on]
         pool = universe
